@@ -15,7 +15,7 @@
 (*            of <<key, value>> pairs with pairwise unequal keys).            *)
 (* Every type uses its own payload field names so that TLC never has to       *)
 (* compare payloads of different types.                                       *)
-EXTENDS Integers, Sequences, FiniteSets, TLC
+EXTENDS Integers, Sequences, FiniteSets, TLC, Bitwise
 
 Bool(b)        == [t |-> "bool", b |-> b]
 Num(s, x, d)   == [t |-> "num", ns |-> s, nx |-> x, nd |-> d]
@@ -121,5 +121,335 @@ WF(v) ==
             /\ \A i \in 1..Len(v.l) : WF(v.l[i])
             /\ \A i \in 1..Len(v.n) : WF(v.n[i][1]) /\ WF(v.n[i][2])
             /\ \A i, j \in 1..Len(v.n) : i # j => ~Eq(v.n[i][1], v.n[j][1])
+
+
+-----------------------------------------------------------------------------
+(***************************************************************************)
+(* Evaluation of operators (core/ops.go, core/interp.go,                   *)
+(* compile/ast/expr.go).                                                    *)
+(*                                                                         *)
+(* An expression is a record  [op |-> "x", i |-> k]   (operand k of env)    *)
+(* or [op |-> name, a |-> <<sub-expressions>>] with name one of             *)
+(*   neg pos not bitnot                       unary - + not ~               *)
+(*   is isnt lt lte gt gte                    comparisons (total order)     *)
+(*   add sub mul div mod lshift rshift bitor bitand bitxor cat              *)
+(*   and or if in                             short-circuit / lazy          *)
+(*   isnum isstr isdate                       Number? String? Date?         *)
+(*   match nomatch                            (not modelled: unknown)       *)
+(* The result is a value, an exception CLASS ("type": operand of the wrong  *)
+(* type, "arith": integer division by zero / negative shift count), or      *)
+(* unknown when the operands leave the domain modelled here:                *)
+(*   numbers with at most 9 significant digits and a small exponent         *)
+(*   (exact in 32-bit TLC arithmetic and in util/dnum), non-negative        *)
+(*   operands of the bit operators, divisions that terminate, results of    *)
+(*   the same kind.  Outside it the implementations are only required to    *)
+(*   agree with each other (TraceFold / TraceQExpr).                        *)
+(***************************************************************************)
+
+RV(v) == [k |-> "v", v |-> v, c |-> ""]
+RX(c) == [k |-> "x", v |-> False, c |-> c]
+RU    == [k |-> "u", v |-> False, c |-> ""]
+TypeErr  == RX("type")
+ArithErr == RX("arith")
+
+\* two results are the same outcome
+SameRes(r, s) ==
+    /\ r.k = s.k
+    /\ r.c = s.c
+    /\ r.k = "v" => Eq(r.v, s.v)
+
+---------------------------------------------------------------------------
+(* small decimal arithmetic: value = m * 10^e with |m| < 10^9 *)
+
+RECURSIVE DigVal(_, _), NDig(_), DigitsOf(_), StripZ(_, _)
+DigVal(d, i) == IF i = 0 THEN 0 ELSE DigVal(d, i - 1) * 10 + d[i]
+NDig(n) == IF n < 10 THEN 1 ELSE 1 + NDig(n \div 10)              \* n >= 0
+DigitsOf(n) == IF n < 10 THEN <<n>> ELSE Append(DigitsOf(n \div 10), n % 10)
+StripZ(m, e) == IF m % 10 = 0 THEN StripZ(m \div 10, e + 1) ELSE <<m, e>>   \* m > 0
+
+IsSmall(v) == /\ v.t = "num"
+              /\ \/ v.ns = 0
+                 \/ /\ v.ns \in {-1, 1} /\ Len(v.nd) <= 9
+                    /\ (v.nx - Len(v.nd)) \in -12..9
+AbsM(v) == IF v.ns = 0 THEN 0 ELSE DigVal(v.nd, Len(v.nd))        \* magnitude of the mantissa
+Exp10(v) == IF v.ns = 0 THEN 0 ELSE v.nx - Len(v.nd)
+\* the number s * am * 10^e  (am >= 0)
+FromME(s, am, e) ==
+    IF am = 0 \/ s = 0 THEN Zero
+    ELSE LET p == StripZ(am, e)
+             d == DigitsOf(p[1])
+         IN Num(s, p[2] + Len(d), d)
+Pow10(n) == 10 ^ n
+Fits(am, shift) == am = 0 \/ NDig(am) + shift <= 9
+
+\* Two numbers agree up to rounding: same sign and |a - b| < 10^(X-13) where X is the
+\* larger exponent (relative difference below about 1e-12).  Used only where the exact
+\* result is outside the modelled domain (inexact division, more than 16 digits), where
+\* re-association by the folder legitimately changes the last digits.
+\* The digits are placed in 18 decimal places below 10^X and compared as two 9-digit limbs.
+Limb(d, off, from) ==      \* value of places from..from+8 of (off zeros, then the digits d, then zeros)
+    DigVal([i \in 1..9 |-> LET k == from + i - 1 - off IN IF k >= 1 /\ k <= Len(d) THEN d[k] ELSE 0], 9)
+NumClose(a, b) ==
+    /\ a.ns = b.ns
+    /\ \/ a.ns \in {0, 2, -2}
+       \/ LET X == Max2(a.nx, b.nx)
+              oa == X - a.nx
+              ob == X - b.nx
+          IN /\ oa <= 1 /\ ob <= 1
+             /\ LET dh == Limb(a.nd, oa, 1) - Limb(b.nd, ob, 1)
+                    dl == Limb(a.nd, oa, 10) - Limb(b.nd, ob, 10)
+                IN /\ dh \in {-1, 0, 1}
+                   /\ LET t == dh * 1000000000 + dl IN t > -100000 /\ t < 100000
+
+\* conversion of an operand to a number (core.ToDnum): false and "" are 0
+IsFalseOrEmpty(v) == (v.t = "bool" /\ ~v.b) \/ (v.t = "str" /\ v.c = <<>>)
+ToNumR(v) ==
+    IF v.t = "num" THEN RV(v)
+    ELSE IF IsFalseOrEmpty(v) THEN RV(Zero)
+    ELSE TypeErr
+
+\* conversion to an integer (core.ToInt): result [k, n]; k = "v" ok, "x" type error, "u" unknown
+IntR(v) ==
+    IF IsFalseOrEmpty(v) THEN [k |-> "v", n |-> 0]
+    ELSE IF v.t # "num" THEN [k |-> "x", n |-> 0]
+    ELSE IF v.ns = 0 THEN [k |-> "v", n |-> 0]
+    ELSE IF v.ns \in {2, -2} THEN [k |-> "x", n |-> 0]
+    ELSE IF Len(v.nd) > v.nx THEN [k |-> "x", n |-> 0]           \* has a fractional part
+    ELSE IF v.nx > 19 THEN [k |-> "x", n |-> 0]                  \* beyond int64
+    ELSE IF v.nx > 9 THEN [k |-> "u", n |-> 0]                   \* beyond the modelled range
+    ELSE [k |-> "v", n |-> v.ns * DigVal(v.nd, Len(v.nd)) * Pow10(v.nx - Len(v.nd))]
+
+IntV(n) == IF n = 0 THEN Zero ELSE FromME(IF n < 0 THEN -1 ELSE 1, IF n < 0 THEN -n ELSE n, 0)
+
+AddNum(a, b, sb) ==      \* a + sb * b
+    IF ~IsSmall(a) \/ ~IsSmall(b) THEN RU
+    ELSE LET e == Min2(Exp10(a), Exp10(b))
+             sa == Exp10(a) - e
+             sh == Exp10(b) - e
+         IN IF ~Fits(AbsM(a), sa) \/ ~Fits(AbsM(b), sh) THEN RU
+            ELSE LET sum == a.ns * AbsM(a) * Pow10(sa) + sb * b.ns * AbsM(b) * Pow10(sh)
+                 IN RV(FromME(Sgn(sum), IF sum < 0 THEN -sum ELSE sum, e))
+
+MulNum(a, b) ==
+    IF a.ns = 0 \/ b.ns = 0 THEN
+        (IF (a.ns \in {2, -2}) \/ (b.ns \in {2, -2}) THEN RU ELSE RV(Zero))
+    ELSE IF ~IsSmall(a) \/ ~IsSmall(b) THEN RU
+    ELSE IF NDig(AbsM(a)) + NDig(AbsM(b)) > 9 THEN RU
+    ELSE RV(FromME(a.ns * b.ns, AbsM(a) * AbsM(b), Exp10(a) + Exp10(b)))
+
+DivNum(a, b) ==
+    IF a.ns \in {2, -2} \/ b.ns \in {2, -2} THEN RU
+    ELSE IF a.ns = 0 THEN RV(Zero)                                 \* 0 / anything (also 0 / 0) is 0
+    ELSE IF b.ns = 0 THEN RV(Num(2 * a.ns, 0, <<>>))               \* x / 0 is +-infinity, not an exception
+    ELSE IF ~IsSmall(a) \/ ~IsSmall(b) THEN RU
+    ELSE LET ma == AbsM(a)
+             mb == AbsM(b)
+             K == {k \in 0..8 : Fits(ma, k) /\ (ma * Pow10(k)) % mb = 0}
+         IN IF K = {} THEN RU                                      \* does not terminate within 9 digits
+            ELSE LET k == CHOOSE k \in K : \A j \in K : k <= j
+                 IN RV(FromME(a.ns * b.ns, (ma * Pow10(k)) \div mb, Exp10(a) - Exp10(b) - k))
+
+\* display of a number as the language converts it to a string (dnum.String / Itoa)
+DigitChars(d) == [i \in 1..Len(d) |-> 48 + d[i]]
+Zeros(n) == [i \in 1..n |-> 48]
+NumStrR(v) ==
+    IF v.ns = 0 THEN RV(Str(<<48>>))
+    ELSE IF v.ns \in {2, -2} THEN RU
+    ELSE LET nd == Len(v.nd)
+             sign == IF v.ns < 0 THEN <<45>> ELSE <<>>
+         IN IF v.nx >= nd /\ v.nx <= 16 THEN RV(Str(sign \o DigitChars(v.nd) \o Zeros(v.nx - nd)))
+            ELSE IF v.nx <= 0 /\ v.nx >= -7 THEN RV(Str(sign \o <<46>> \o Zeros(-v.nx) \o DigitChars(v.nd)))
+            ELSE IF v.nx > 0 /\ v.nx < nd
+                 THEN RV(Str(sign \o DigitChars(SubSeq(v.nd, 1, v.nx)) \o <<46>> \o DigitChars(SubSeq(v.nd, v.nx + 1, nd))))
+            ELSE RU                                                \* scientific notation: not modelled
+\* core.AsStr
+AsStrR(v) ==
+    IF v.t = "str" THEN RV(v)
+    ELSE IF v.t = "bool" THEN RV(Str(IF v.b THEN <<116, 114, 117, 101>> ELSE <<102, 97, 108, 115, 101>>))
+    ELSE IF v.t = "num" THEN NumStrR(v)
+    ELSE TypeErr
+
+MathOps == {"neg", "pos", "bitnot", "add", "sub", "mul", "div", "mod", "lshift", "rshift",
+            "bitor", "bitand", "bitxor"}
+CmpOps  == {"is", "isnt", "lt", "lte", "gt", "gte"}
+
+BoolV(b) == RV(Bool(b))
+
+\* strict operators applied to operand VALUES (all operands already evaluated, left to right)
+Apply1(op, x) ==
+    CASE op = "not" -> IF x.t = "bool" THEN BoolV(~x.b) ELSE TypeErr
+      [] op = "pos" -> IF x.t = "num" THEN RV(x) ELSE ToNumR(x)
+      [] op = "neg" -> LET n == ToNumR(x)
+                       IN IF n.k # "v" THEN n
+                          ELSE RV(IF n.v.ns = 0 THEN Zero ELSE Num(-n.v.ns, n.v.nx, n.v.nd))
+      [] op = "bitnot" -> LET i == IntR(x)
+                          IN IF i.k = "x" THEN TypeErr ELSE IF i.k = "u" THEN RU ELSE RV(IntV(-i.n - 1))
+      [] op = "isnum"  -> BoolV(x.t = "num")
+      [] op = "isstr"  -> BoolV(x.t = "str")
+      [] op = "isdate" -> BoolV(x.t = "date")
+
+IntOp(op, x, y) ==
+    LET i == IntR(x)
+        j == IntR(y)
+    IN IF i.k = "x" \/ (i.k = "v" /\ j.k = "x") THEN TypeErr
+       ELSE IF i.k = "u" \/ j.k = "u" THEN RU
+       ELSE LET a == i.n
+                b == j.n
+            IN CASE op = "mod" -> IF b = 0 THEN ArithErr
+                                  ELSE LET m == (IF a < 0 THEN -a ELSE a) % (IF b < 0 THEN -b ELSE b)
+                                       IN RV(IntV(IF a < 0 THEN -m ELSE m))    \* truncated, sign of the dividend
+                 [] op = "lshift" -> IF b < 0 THEN ArithErr
+                                     ELSE IF a = 0 THEN RV(Zero)
+                                     ELSE IF b > 20 \/ NDig(IF a < 0 THEN -a ELSE a) > 3 THEN RU
+                                     ELSE RV(IntV(a * (2 ^ b)))
+                 [] op = "rshift" -> IF b < 0 THEN ArithErr
+                                     ELSE IF a < 0 THEN RU                      \* unsigned 64-bit shift
+                                     ELSE IF b > 30 THEN RV(Zero)
+                                     ELSE RV(IntV(a \div (2 ^ b)))
+                 [] op \in {"bitor", "bitand", "bitxor"} ->
+                        IF a < 0 \/ b < 0 THEN RU                               \* two's complement: not modelled
+                        ELSE RV(IntV(IF op = "bitor" THEN a | b ELSE IF op = "bitand" THEN a & b ELSE a ^^ b))
+
+Apply2(op, x, y) ==
+    CASE op = "is"   -> BoolV(Eq(x, y))
+      [] op = "isnt" -> BoolV(~Eq(x, y))
+      [] op = "lt"   -> BoolV(Cmp(x, y) < 0)
+      [] op = "lte"  -> BoolV(Cmp(x, y) <= 0)
+      [] op = "gt"   -> BoolV(Cmp(x, y) > 0)
+      [] op = "gte"  -> BoolV(Cmp(x, y) >= 0)
+      [] op \in {"add", "sub", "mul", "div"} ->
+            LET a == ToNumR(x)
+                b == ToNumR(y)
+            IN IF a.k # "v" THEN a ELSE IF b.k # "v" THEN b
+               ELSE (CASE op = "add" -> AddNum(a.v, b.v, 1)
+                       [] op = "sub" -> AddNum(a.v, b.v, -1)
+                       [] op = "mul" -> MulNum(a.v, b.v)
+                       [] op = "div" -> DivNum(a.v, b.v))
+      [] op \in {"mod", "lshift", "rshift", "bitor", "bitand", "bitxor"} -> IntOp(op, x, y)
+      [] op = "cat" ->
+            LET s1 == AsStrR(x)
+                s2 == AsStrR(y)
+            IN IF s1.k # "v" THEN s1 ELSE IF s2.k # "v" THEN s2 ELSE RV(Str(s1.v.c \o s2.v.c))
+      [] op \in {"match", "nomatch"} -> RU
+
+RECURSIVE Eval(_, _), EvalIn(_, _, _, _)
+Eval(e, env) ==
+    IF e.op = "x" THEN RV(env[e.i])
+    ELSE IF e.op \in {"and", "or"} THEN
+        \* left to right; the right operand is evaluated only if the left one does not decide;
+        \* every evaluated operand must be a boolean
+        LET l == Eval(e.a[1], env)
+        IN IF l.k # "v" THEN l
+           ELSE IF l.v.t # "bool" THEN TypeErr
+           ELSE IF l.v.b = (e.op = "or") THEN l
+           ELSE LET r == Eval(e.a[2], env)
+                IN IF r.k # "v" THEN r ELSE IF r.v.t # "bool" THEN TypeErr ELSE r
+    ELSE IF e.op = "if" THEN
+        LET c == Eval(e.a[1], env)
+        IN IF c.k # "v" THEN c
+           ELSE IF c.v.t # "bool" THEN TypeErr
+           ELSE IF c.v.b THEN Eval(e.a[2], env) ELSE Eval(e.a[3], env)
+    ELSE IF e.op = "in" THEN
+        LET x == Eval(e.a[1], env)
+        IN IF x.k # "v" THEN x ELSE EvalIn(x.v, e.a, 2, env)
+    ELSE IF Len(e.a) = 1 THEN
+        LET x == Eval(e.a[1], env)
+        IN IF x.k # "v" THEN x ELSE Apply1(e.op, x.v)
+    ELSE
+        LET x == Eval(e.a[1], env)
+        IN IF x.k # "v" THEN x
+           ELSE LET y == Eval(e.a[2], env)
+                IN IF y.k # "v" THEN y ELSE Apply2(e.op, x.v, y.v)
+\* x in (a[i], a[i+1], ...): members are evaluated in order until one is equal
+EvalIn(x, a, i, env) ==
+    IF i > Len(a) THEN BoolV(FALSE)
+    ELSE LET y == Eval(a[i], env)
+         IN IF y.k # "v" THEN y
+            ELSE IF Eq(x, y.v) THEN BoolV(TRUE)
+            ELSE EvalIn(x, a, i + 1, env)
+
+---------------------------------------------------------------------------
+(* Which operands are read, as a sequence of operand indexes in left-to-right *)
+(* order (only meaningful when Eval gives a value: no exception cuts it       *)
+(* short).  Folding must not change it for operands that are not constants:   *)
+(* reading an operand may have side effects.                                  *)
+RECURSIVE EvalSeq(_, _), EvalSeqIn(_, _, _, _)
+EvalSeq(e, env) ==
+    IF e.op = "x" THEN <<e.i>>
+    ELSE IF e.op \in {"and", "or"} THEN
+        LET l == Eval(e.a[1], env)
+        IN IF l.k = "v" /\ l.v.t = "bool" /\ l.v.b = (e.op = "or") THEN EvalSeq(e.a[1], env)
+           ELSE EvalSeq(e.a[1], env) \o EvalSeq(e.a[2], env)
+    ELSE IF e.op = "if" THEN
+        LET c == Eval(e.a[1], env)
+        IN EvalSeq(e.a[1], env) \o
+           (IF c.k = "v" /\ c.v.t = "bool" THEN EvalSeq(e.a[IF c.v.b THEN 2 ELSE 3], env) ELSE <<>>)
+    ELSE IF e.op = "in" THEN
+        LET x == Eval(e.a[1], env)
+        IN EvalSeq(e.a[1], env) \o (IF x.k = "v" THEN EvalSeqIn(x.v, e.a, 2, env) ELSE <<>>)
+    ELSE IF Len(e.a) = 1 THEN EvalSeq(e.a[1], env)
+    ELSE EvalSeq(e.a[1], env) \o EvalSeq(e.a[2], env)
+EvalSeqIn(x, a, i, env) ==
+    IF i > Len(a) THEN <<>>
+    ELSE LET y == Eval(a[i], env)
+         IN EvalSeq(a[i], env) \o
+            (IF y.k = "v" /\ ~Eq(x, y.v) THEN EvalSeqIn(x, a, i + 1, env) ELSE <<>>)
+\* number of occurrences of n in the sequence s
+Count(s, n) == Cardinality({p \in 1..Len(s) : s[p] = n})
+
+---------------------------------------------------------------------------
+(* Compile-time diagnostics.  The compiler rejects a program (instead of     *)
+(* folding) when a constant operand is of the wrong type for its operator:   *)
+(* arithmetic on a literal that is not a number ("cannot do math on String   *)
+(* literal" - also for false and "" which would convert to 0 at run time),   *)
+(* a non-integer in a bit operation, a non-boolean under and / or / not /    *)
+(* ?:, a date or object under $, or when a constant subexpression raises an  *)
+(* exception when it is folded.  These are static checks on literals, not    *)
+(* folding: a compile-time error is accepted exactly when such an operand    *)
+(* exists.  lit[i] says whether operand i is a literal (or a propagated      *)
+(* single-assignment local) in the compiled form.                            *)
+OperandOK(op, pos, v) ==
+    IF op \in {"neg", "pos", "add", "sub", "mul", "div"} THEN v.t = "num"
+    ELSE IF op \in {"bitnot", "mod", "lshift", "rshift", "bitor", "bitand", "bitxor"}
+         THEN v.t = "num" /\ IntR(v).k # "x"
+    ELSE IF op \in {"and", "or", "not"} THEN v.t = "bool"
+    ELSE IF op = "if" THEN (pos # 1 \/ v.t = "bool")
+    ELSE IF op = "cat" THEN v.t \in {"bool", "num", "str"}
+    ELSE TRUE
+
+\* does the sub-expression fold to a constant at compile time: all its operands are literals,
+\* or a literal decides a short-circuit operator / selects a constant branch
+RECURSIVE AllLit(_, _), CF(_, _, _), CFIn(_, _, _, _, _), LitDiag(_, _, _)
+AllLit(e, lit) == IF e.op = "x" THEN lit[e.i] ELSE \A i \in 1..Len(e.a) : AllLit(e.a[i], lit)
+CF(e, env, lit) ==
+    IF e.op = "x" THEN lit[e.i]
+    ELSE IF e.op \in {"and", "or"} THEN
+        /\ CF(e.a[1], env, lit)
+        /\ LET l == Eval(e.a[1], env)
+           IN \/ (l.k = "v" /\ l.v.t = "bool" /\ l.v.b = (e.op = "or"))    \* decided by the left operand
+              \/ CF(e.a[2], env, lit)
+    ELSE IF e.op = "if" THEN
+        /\ CF(e.a[1], env, lit)
+        /\ LET c == Eval(e.a[1], env)
+           IN c.k = "v" /\ c.v.t = "bool" /\ CF(e.a[IF c.v.b THEN 2 ELSE 3], env, lit)
+    ELSE IF e.op = "in" THEN
+        /\ CF(e.a[1], env, lit)
+        /\ LET x == Eval(e.a[1], env) IN x.k = "v" /\ CFIn(x.v, e.a, 2, env, lit)
+    ELSE \A i \in 1..Len(e.a) : CF(e.a[i], env, lit)
+\* constant members are compared in order; an equal one folds the whole to true
+CFIn(x, a, i, env, lit) ==
+    \/ i > Len(a)
+    \/ /\ CF(a[i], env, lit)
+       /\ LET y == Eval(a[i], env)
+          IN y.k = "v" /\ (Eq(x, y.v) \/ CFIn(x, a, i + 1, env, lit))
+BadConstOperand(e, env, lit) ==
+    \E i \in 1..Len(e.a) :
+        /\ CF(e.a[i], env, lit)
+        /\ LET r == Eval(e.a[i], env) IN r.k = "v" /\ ~OperandOK(e.op, i, r.v)
+LitDiag(e, env, lit) ==
+    /\ e.op # "x"
+    /\ \/ BadConstOperand(e, env, lit)
+       \/ (AllLit(e, lit) \/ CF(e, env, lit)) /\ Eval(e, env).k \in {"x", "u"}   \* ("u": cannot tell, accept)
+       \/ \E i \in 1..Len(e.a) : LitDiag(e.a[i], env, lit)
 
 =============================================================================
